@@ -96,6 +96,13 @@ pub fn spec(pre: &RefMmu, step: &Step, log: &[AllocEv]) -> Result<Spec, String> 
                 Class::NoPath(_) | Class::Free => s.accept = vec![Code::NotMapped],
                 Class::InsideHuge(_) => s.accept = vec![Code::ParentHuge],
                 Class::HoldsTable => s.any_err = true,
+                Class::MappedExact if pre.leaves[&full].misaligned(full.len) => {
+                    // documented: the entry points to an invalid physical address; nothing changes
+                    s.accept = vec![Code::InvalidFrame];
+                    if pre.leaves[&full].flags & P == 0 {
+                        s.alt = Some((Code::NotMapped, pre.clone()));
+                    }
+                }
                 Class::MappedExact => {
                     s.accept = vec![Code::Ok];
                     s.exp_frame = Some(pre.leaves[&full].frame);
@@ -137,6 +144,12 @@ pub fn spec(pre: &RefMmu, step: &Step, log: &[AllocEv]) -> Result<Spec, String> 
                 Class::NoPath(_) | Class::Free => s.accept = vec![Code::NotMapped],
                 Class::InsideHuge(_) => s.accept = vec![Code::ParentHuge],
                 Class::HoldsTable => s.any_err = true,
+                Class::MappedExact if pre.leaves[&full].misaligned(full.len) => {
+                    s.accept = vec![Code::InvalidFrame];
+                    if pre.leaves[&full].flags & P == 0 {
+                        s.alt = Some((Code::NotMapped, pre.clone()));
+                    }
+                }
                 Class::MappedExact => {
                     s.accept = vec![Code::Ok];
                     s.exp_frame = Some(pre.leaves[&full].frame);
@@ -183,7 +196,7 @@ pub fn spec(pre: &RefMmu, step: &Step, log: &[AllocEv]) -> Result<Spec, String> 
             }
             Ok(s)
         }
-        Step::Translate { .. } | Step::Touch { .. } | Step::CleanUp | Step::CleanUpRange { .. } => Ok(base(pre, Class::Free)),
+        Step::Translate { .. } | Step::Touch { .. } | Step::Poke { .. } | Step::CleanUp | Step::CleanUpRange { .. } => Ok(base(pre, Class::Free)),
     }
 }
 
@@ -199,6 +212,7 @@ pub fn translate_page_expect(m: &RefMmu, page: u64, size: Size) -> (Class, bool,
         Class::NoPath(_) | Class::Free => (class, false, Code::NotMapped, None),
         Class::InsideHuge(_) => (class, false, Code::ParentHuge, None),
         Class::HoldsTable => (class, true, Code::NotMapped, None),
+        Class::MappedExact if m.leaves[&Path::of(page, size.path_len())].misaligned(size.path_len()) => (class, false, Code::InvalidFrame, None),
         Class::MappedExact => (class, false, Code::Ok, Some(m.leaves[&Path::of(page, size.path_len())].frame)),
     }
 }
